@@ -24,7 +24,7 @@ META = {
                    'input value (no well-typedness hypothesis): whatever the default-engine loader model returns is a value of the '
                    'annotated type, up to exactly three leniencies (a `None` annotation keeps its input, a Union without None passes '
                    'None, a fixed tuple with optional members may come back short) - each proved to be a real violation of the '
-                   'strict statement by a witness (C05_refuted_*), replayed on the implementation as findings F23-F25; on the region '
+                   'strict statement by a witness (C05_refuted_*), replayed on the implementation as findings F44-F46; on the region '
                    'safe_ty the strict statement is proved (C05_v0_partial). The model is re-validated against fromdict on well-typed '
                    'and malformed documents on every run. The v1 engine has no model here: it is covered by the direct predicate '
                    '(independent conformance checker on every returned instance) and the malformed stream only.'),
@@ -47,7 +47,7 @@ META = {
                     'Err EUnmodelled and are excluded from the model comparison (counted in the evidence)'],
 }
 
-FINDINGS = ['F23-union-without-none-passes-none', 'F24-short-tuple-with-optional-members', 'F25-none-annotation-accepts-anything']
+FINDINGS = ['F44-union-without-none-passes-none', 'F45-short-tuple-with-optional-members', 'F46-none-annotation-accepts-anything']
 
 
 def coq_eval_sharded(ctx, exprs, imports, tag='cases', shard=40):
@@ -119,6 +119,21 @@ def parse_show(s, i=0):
 NEG_ZERO_ELEM = {'D' + '-0x0.0p+0'.encode().hex() + ';': 'D' + '0x0.0p+0'.encode().hex() + ';'}
 
 
+def py_eq_class(x):
+    """Representative of a set element's Python-equality class where it is coarser than the model's
+    structural equality: 0.0 == -0.0, Decimal('1.0') == Decimal('1') == Decimal('1E+0')."""
+    x = NEG_ZERO_ELEM.get(x, x)
+    if x.startswith('Kc') and x.endswith(';'):
+        import decimal
+        try:
+            d = decimal.Decimal(bytes.fromhex(x[2:-1]).decode())
+            if d.is_finite():
+                return 'Kc' + str(d.normalize() + 0).encode().hex() + ';'
+        except Exception:
+            pass
+    return x
+
+
 def canon_node(n):
     if isinstance(n, str):
         return n
@@ -129,7 +144,7 @@ def canon_node(n):
             # structural (ordered lists for inner frozensets, float tokens by text), so compare modulo
             # the two structural differences that are == in Python: inner-set order (already canonical
             # here) and 0.0 / -0.0.
-            items = sorted(set(NEG_ZERO_ELEM.get(x, x) for x in items))
+            items = sorted(set(py_eq_class(x) for x in items))
         return '[' + n[1] + ''.join(items) + ']'
     if n[0] == '{':
         items = [canon_node(k) + canon_node(v) for k, v in n[3]]
